@@ -74,3 +74,75 @@ theorem contains_erase_ne (d : PyDict α) (k k' : Nat) (h : k' ≠ k) : (d.erase
   rw [contains_iff_get?, contains_iff_get?, get?_erase_ne d k k' h]
 
 end J1939.PyDict
+
+namespace J1939.PyDict
+variable {α : Type}
+
+theorem keys_set_nodup (d : PyDict α) (k : Nat) (v : α) (h : d.keys.Nodup) : (d.set k v).keys.Nodup := by
+  induction d with
+  | nil => simp [set, keys]
+  | cons p d ih =>
+    simp only [keys, List.map_cons, List.nodup_cons] at h
+    simp only [set]
+    split
+    · rename_i hp
+      have hp' : p.1 = k := by simpa using hp
+      simp only [keys, List.map_cons, List.nodup_cons]
+      exact ⟨hp' ▸ h.1, h.2⟩
+    · rename_i hp
+      have hp' : p.1 ≠ k := by simpa using hp
+      simp only [keys, List.map_cons, List.nodup_cons]
+      refine ⟨?_, ih h.2⟩
+      intro hm
+      -- keys of (set d k v) are the keys of d, plus k
+      have : ∀ (d : PyDict α) x, x ∈ (set d k v).map (·.1) → x = k ∨ x ∈ d.map (·.1) := by
+        intro d
+        induction d with
+        | nil => intro x hx; simp [set] at hx; exact Or.inl hx
+        | cons q d ih2 =>
+          intro x hx
+          simp only [set] at hx
+          split at hx
+          · rename_i hq
+            simp only [List.map_cons, List.mem_cons] at hx ⊢
+            rcases hx with hx | hx
+            · exact Or.inl hx
+            · exact Or.inr (Or.inr hx)
+          · simp only [List.map_cons, List.mem_cons] at hx ⊢
+            rcases hx with hx | hx
+            · exact Or.inr (Or.inl hx)
+            · rcases ih2 x hx with h1 | h1
+              · exact Or.inl h1
+              · exact Or.inr (Or.inr h1)
+      rcases this d p.1 hm with h1 | h1
+      · exact hp' h1
+      · exact h.1 h1
+
+theorem keys_erase_nodup (d : PyDict α) (k : Nat) (h : d.keys.Nodup) : (d.erase k).keys.Nodup := by
+  exact List.Nodup.sublist (List.Sublist.map _ List.filter_sublist) h
+
+theorem get?_isSome_of_mem_keys (d : PyDict α) (k : Nat) (h : k ∈ d.keys) : (d.get? k).isSome := by
+  rw [← contains_iff_get?]
+  simp only [keys, List.mem_map] at h
+  obtain ⟨p, hp, rfl⟩ := h
+  simp only [contains, List.any_eq_true]
+  exact ⟨p, hp, by simp⟩
+
+/-- every value satisfies `P` -/
+def All (P : α → Prop) (d : PyDict α) : Prop := ∀ k v, d.get? k = some v → P v
+
+theorem all_set (P : α → Prop) (d : PyDict α) (k : Nat) (v : α) (h : All P d) (hv : P v) : All P (d.set k v) := by
+  intro k' v' hg
+  by_cases hk : k' = k
+  · subst hk; rw [get?_set_self] at hg; cases hg; exact hv
+  · rw [get?_set_ne d k k' v hk] at hg; exact h k' v' hg
+
+theorem all_erase (P : α → Prop) (d : PyDict α) (k : Nat) (h : All P d) : All P (d.erase k) := by
+  intro k' v' hg
+  by_cases hk : k' = k
+  · subst hk; rw [get?_erase_self] at hg; cases hg
+  · rw [get?_erase_ne d k k' hk] at hg; exact h k' v' hg
+
+theorem all_nil (P : α → Prop) : All P ([] : PyDict α) := by intro k v h; cases h
+
+end J1939.PyDict
